@@ -226,6 +226,83 @@ func armCalls(c *driver.Ctx) {
 	for _, k := range kinds {
 		c.Cover("callables_enumerated", k.name)
 	}
+	// unary sweep: every callable with every pool value as its only argument (and, for methods, every
+	// receiver of the type with every pool value), so that no (callable, argument kind) pair is left to chance
+	for ki := range kinds {
+		if !c.Take() {
+			continue
+		}
+		k := kinds[ki]
+		pool := newPool()
+		var recvs []pv
+		if k.recv != "" {
+			for _, p := range pool {
+				if p.v.Type() == k.recv {
+					recvs = append(recvs, p)
+				}
+			}
+		} else {
+			recvs = []pv{{}}
+		}
+		for ri := range recvs {
+			for ai := range pool {
+				fn := k.fn
+				recvDesc := ""
+				huge := false
+				if k.recv != "" {
+					rp := recvs[ri]
+					v, err := rp.v.(starlark.HasAttrs).Attr(k.attr)
+					if err != nil || v == nil {
+						break
+					}
+					fn = v
+					recvDesc = rp.name + ":" + describe(rp.v)
+					huge = rp.tags == "huge"
+					if ri > 1 && ai%4 != ri%4 {
+						continue // beyond the first two receivers of a type: a quarter of the arguments each
+					}
+				}
+				a := pool[ai]
+				huge = huge || a.tags == "huge"
+				text := fmt.Sprintf("%s recv=%s args=(%s)", k.name, recvDesc, a.name+":"+describe(a.v))
+				c.Note("key=C02 crash call %s\n%s", k.name, text)
+				nilAt := ""
+				res := guarded(2*time.Second, func(th *starlark.Thread) error {
+					v, err := starlark.Call(th, fn, starlark.Tuple{a.v}, nil)
+					if err == nil {
+						nilAt = findNil(v, "result", new(int))
+					}
+					return err
+				})
+				if nilAt != "" {
+					c.Violation("C02 nil-value-in-result call "+k.name, "a built-in returned a value containing a nil (not None) element at "+nilAt+": any use of it crashes the host: "+text, map[string]any{"input": text})
+				}
+				c.Eval(1)
+				c.Count("calls_"+res.outcome, 1)
+				c.Count("unary_sweep_calls", 1)
+				c.Cover("callables_reached", k.name)
+				c.Distinct(k.name + "(" + a.v.Type() + ")kw0")
+				judgeCall(c, "call "+k.name, text, res, huge)
+				if res.outcome == "timeout" {
+					pool = newPool()
+					if k.recv != "" {
+						recvs = recvs[:0]
+						for _, p := range pool {
+							if p.v.Type() == k.recv {
+								recvs = append(recvs, p)
+							}
+						}
+						if ri >= len(recvs) {
+							break
+						}
+					}
+				}
+			}
+			if leaked.Load() >= 3 {
+				c.RestartProcess()
+			}
+		}
+	}
 	rounds := c.Pick(3, 40)
 	per := 40
 	for round := 0; round < rounds; round++ {
